@@ -153,9 +153,10 @@ def Op.derives : Op → Bool
 theorem good_opProg_derive (F : Facts15) [DeepCopy F] (hF : F.mandRule = .copies) (fuel : Nat) (op : Op) (hop : op.derives = true)
     (n na : Nat) : Good n na [] (opProg F fuel op) (fun r => ∀ id, r = some id → n ≤ id) := by
   cases op with
-  | customize src kw ca caa =>
+  | customize src kw ca caa prot =>
     simp only [opProg]
     refine Good.bind (Good.getCls _) (fun sc _ => ?_)
+    refine Good.bind (good_protMerge F prot kw) (fun kwE _ => ?_)
     split
     · exact Good.map _ (good_custComplex _ _ _ _ _ _) (fun a ha id e => by cases e; exact ha)
     · exact Good.map _ (good_customizeAny _ _ _ _) (fun a ha id e => by cases e; exact ha)
@@ -163,8 +164,8 @@ theorem good_opProg_derive (F : Facts15) [DeepCopy F] (hF : F.mandRule = .copies
     exact Good.map _ (good_arrayOp _ _ _ _ _ _ _) (fun a ha id e => by cases e; exact ha)
   | mandatory src =>
     exact Good.map _ ((goodMand F hF fuel).mandatory src) (fun a ha id e => by cases e; exact ha)
-  | subclass base name ns fields perm attrs =>
-    exact Good.map _ (good_subclassOp _ _ _ _ _ _ _) (fun a ha id e => by cases e; exact ha)
+  | subclass base name ns fields perm attrs mixins asMixin =>
+    exact Good.map _ (good_subclassOp _ _ _ _ _ _ _ _ _) (fun a ha id e => by cases e; exact ha)
   | append c name t => simp [Op.derives] at hop
   | insert c idx name t => simp [Op.derives] at hop
   | xmlattr src =>
